@@ -266,11 +266,23 @@ impl TensorWal {
         let path = path.as_ref().to_path_buf();
 
         // Get current size if file exists
-        let current_size = if path.exists() {
+        let mut current_size = if path.exists() {
             std::fs::metadata(&path)?.len()
         } else {
             0
         };
+
+        // A crash can leave an incomplete record at the end of the file. Replay stops in front
+        // of it, so anything appended behind it would be unreadable: drop the torn tail first.
+        if current_size > 0 {
+            let valid_len = Self::complete_prefix_len(&path, current_size)?;
+            if valid_len < current_size {
+                let file = OpenOptions::new().write(true).open(&path)?;
+                file.set_len(valid_len)?;
+                file.sync_all()?;
+                current_size = valid_len;
+            }
+        }
 
         let file = OpenOptions::new().create(true).append(true).open(&path)?;
 
@@ -282,6 +294,28 @@ impl TensorWal {
             current_size,
             pending_sync_count: 0,
         })
+    }
+
+    /// Length of the longest prefix of the file that consists of complete records
+    /// (`[length][checksum][payload]`); a partially written trailing record is excluded.
+    fn complete_prefix_len(path: &Path, file_len: u64) -> io::Result<u64> {
+        use std::io::{Seek, SeekFrom};
+
+        let mut file = File::open(path)?;
+        let mut pos = 0u64;
+        loop {
+            if pos + 8 > file_len {
+                return Ok(pos);
+            }
+            let mut len_buf = [0u8; 4];
+            file.seek(SeekFrom::Start(pos))?;
+            file.read_exact(&mut len_buf)?;
+            let end = pos + 8 + u64::from(u32::from_le_bytes(len_buf));
+            if end > file_len {
+                return Ok(pos);
+            }
+            pos = end;
+        }
     }
 
     /// Get the WAL file path.
